@@ -305,6 +305,26 @@ Definition h_pexpire (now : Z) (d : db) (parts : list frame) : frame * db :=
       end
   end.
 
+(** PEXPIREAT key unix-ms (98d0d1a; StorageEngine::pexpire_at): the deadline as an absolute time on
+    the clock the deadlines are kept in; one that has passed deletes the key.  Not subject to the
+    TTL limit check of the handlers above (the engine function is called directly). *)
+Definition h_pexpireat (now : Z) (d : db) (parts : list frame) : frame * db :=
+  if negb (nparts parts =? 3) then (r_err, d) else
+  match nth_arg parts 1 with
+  | None => (r_err, d)
+  | Some k =>
+      match nth_arg parts 2 with
+      | None => (r_err, d)
+      | Some a =>
+          match parse_i64 a with
+          | None => (r_err, d)
+          | Some t =>
+              if t <=? now then match eng_delete d k with (b, d') => (r_int (if b then 1 else 0), d') end
+              else match eng_expire now d k (t - now) with (b, d') => (r_int (if b then 1 else 0), d') end
+          end
+      end
+  end.
+
 (** TTL in seconds, rounded up; an expired unswept entry answers -2 *)
 Definition h_ttl (now : Z) (d : db) (parts : list frame) : frame * db :=
   if negb (nparts parts =? 2) then (r_err, d) else
